@@ -218,3 +218,4 @@ def check(ctx):
     # no DerefMut for the read guard
     dm = [im for im in ctx.prog.impls if norm(im.get("trait") or "") == "std::ops::DerefMut" and norm(im.get("self_adt") or "") == RG]
     ctx.ob("R-API", RG, "read-guard-no-derefmut", not dm, "RwLockReadGuard does not implement DerefMut" if not dm else "RwLockReadGuard implements DerefMut: readers can mutate", None, nontrivial=False)
+    ctx.import_rules("C02", r"^(sync-blocker|blocker|fast-blocker|thread-park)/")
